@@ -300,6 +300,23 @@ def compare(ctx, spec, text_a, text_e, case, feat, nspec=None, aspec=None,
         for x in (xa, xe):
             if not isinstance(x, H.ALLOWED):
                 ctx.count('non_recognition_error_seen_(C08_matter)')
+    # the multi-document entry point of the same loader class must read the
+    # aliased document like the load function does
+    try:
+        docs = list(yaml.load_all(text_a, Loader=load.loader))
+        ks, xs = ('ok', docs[0]) if len(docs) == 1 else ('err', None)
+    except RecursionError as e:
+        ks, xs = 'err', e
+    except Exception as e:      # noqa
+        ks, xs = 'err', e
+    ctx.count('load_all_compared')
+    if ks != ka or (ks == 'ok' and H.outcome_digest(ks, xs) != da):
+        ctx.violation(
+            'C18 load_all-differs-from-load (%s vs %s)' % (ks, ka),
+            'aliased document %r: load gives %s, yaml.load_all with the same '
+            'loader class gives %s' % (text_a[:200], short(da), short(
+                H.outcome_digest(ks, xs) if ks == 'ok' else [
+                    'err', type(xs).__name__])), case)
     ctx.case(case, True)
     if len(ctx.samples) < 3 and ka == 'ok':
         ctx.sample({'aliased': text_a[:300], 'expanded': text_e[:300],
@@ -441,6 +458,53 @@ def families():
         'cls', 'C3']},
         ['map', [[['s', S_ + 'str', 'zz'], a1], [['s', S_ + 'str', 'c'], a1]],
          S_ + 'map']))
+    # empty mappings shared between items that a savorizer completes in place
+    Iopt = {'name': 'I1', 'kind': 'plain', 'roster_item': True,
+            'params': [{'name': 'k', 'type': 'str'},
+                       {'name': 'v', 'type': 'int', 'default': 0}]}
+    Oidx = {'name': 'O1', 'kind': 'plain', 'roster': True,
+            'params': [{'name': 'o', 'type': 'int'},
+                       {'name': 'items',
+                        'type': ['dict', 'str', ['cls', 'I1']]}],
+            'recognize': ['all', ['attr', 'o', None],
+                          ['attr', 'items', None]],
+            'savorize': [['map_to_index', 'items', 'k', None]],
+            'sweeten': [['index_to_map', 'items', 'k', None]]}
+    e0 = ['map', [], S_ + 'map']
+    fams.append(('empty-items-completed-in-place',
+                 {'classes': [Iopt, Oidx], 'doc_type': ['cls', 'O1']},
+                 ['map', [[['s', S_ + 'str', 'o'], ['s', S_ + 'int', '1']],
+                          [['s', S_ + 'str', 'items'],
+                           ['map', [[['s', S_ + 'str', 'mary'], e0],
+                                    [['s', S_ + 'str', 'bob'], e0],
+                                    [['s', S_ + 'str', 'al'], e0]],
+                            S_ + 'map']]], S_ + 'map']))
+    Cset = {'name': 'C5', 'kind': 'plain',
+            'params': [{'name': 'u', 'type': 'str', 'default': 'cm'}],
+            'savorize': [['set_attr', 'u', 'cm']],
+            'sweeten': [['record']]}
+    fams.append(('empty-class-vs-empty-dict',
+                 {'classes': [Cset], 'doc_type': [
+                     'list', ['union', ['cls', 'C5'], ['list', [
+                         'dict', 'str', 'str']]]]},
+                 ['seq', [e0, ['seq', [e0, e0], S_ + 'seq'], e0],
+                  S_ + 'seq']))
+    # no user class at all: Path and str / Any sharing one scalar
+    px = ['s', S_ + 'str', 'x/y']
+    fams.append(('path-vs-str-no-classes',
+                 {'classes': [], 'doc_type': [
+                     'dict', 'str', ['union', 'str', ['list', 'path']]]},
+                 ['map', [[['s', S_ + 'str', 'a'], px],
+                          [['s', S_ + 'str', 'b'], ['seq', [px], S_ + 'seq']],
+                          [['s', S_ + 'str', 'c'], px]], S_ + 'map']))
+    fams.append(('path-vs-any-no-classes',
+                 {'classes': [], 'doc_type': [
+                     'dict', 'str', ['union', ['list', 'path'],
+                                     ['dict', 'str', 'any']]]},
+                 ['map', [[['s', S_ + 'str', 'a'], ['seq', [px], S_ + 'seq']],
+                          [['s', S_ + 'str', 'b'],
+                           ['map', [[['s', S_ + 'str', 'q'], px]],
+                            S_ + 'map']]], S_ + 'map']))
     i1 = ['s', S_ + 'int', '1']
     fams.append(('scalar-int-twice', {'classes': [C], 'doc_type': [
         'list', ['union', 'int', ['cls', 'C1']]]},
